@@ -154,7 +154,14 @@ fn main() {
             }
         }
         // tolerance honoured: planted, close start, single level, tight tolerance
-        if i % 4 == 1 && levels == 1 {
+        // ("a solvable sketch started near its solution": plants inside a kind's documented guard band,
+        // where the linearisation is switched off while the error measure is live, are not solvable in
+        // that sense - the step is exactly zero there; decided by the independent geometric specification)
+        let healthy_plant = sys.planted.as_ref().map(|xs| sys.reqs.iter().all(|r| {
+            let inb = vh::nonzeroes(r.constraint()).iter().flatten().all(|id| (*id as usize) < xs.len());
+            inb && !ezpz_verif_harness::geom::geom_err(r.constraint(), xs, sys.scale).degenerate && !ezpz_verif_harness::geom::in_guard_band(r.constraint(), xs)
+        })).unwrap_or(false);
+        if i % 4 == 1 && levels == 1 && healthy_plant {
             for tol in [1e-6, 1e-8, 1e-10] {
                 let mut s = sys.clone();
                 s.max_iterations = 200;
